@@ -244,7 +244,7 @@ func (w *World) snapshotLocked(after string) {
 		dir, base := w.State[:i], w.State[i+1:]
 		if ents, derr := os.ReadDir(dir); derr == nil {
 			for _, e := range ents {
-				if n := e.Name(); n != base && strings.HasPrefix(n, base) && !e.IsDir() {
+				if n := e.Name(); n != base && strings.HasPrefix(n, base) && e.Type().IsRegular() {
 					if sb, rerr := os.ReadFile(dir + "/" + n); rerr == nil {
 						if im.Siblings == nil {
 							im.Siblings = map[string][]byte{}
